@@ -1,5 +1,7 @@
 import CalVerif.Model.XlsxCells
 import CalVerif.Model.Range
+import CalVerif.Model.SharedFormula
+import CalVerif.Prim.Utf8
 /-! Model of `XlsxCellReader::next_formula` and `Xlsx::worksheet_formula` (`/repo/src/xlsx/cells_reader.rs`,
     `/repo/src/xlsx/mod.rs`) over the XML event list of a worksheet part (C14, stored-text formulas).
 
@@ -8,8 +10,13 @@ import CalVerif.Model.Range
     column cursor, a cell without `r` sits at the cursor; `</c>` advances the column cursor.  Inside `<c>` every
     child start tag goes through `read_formula`: `<is>` / `<v>` are skipped (`read_to_end_into`), `<f>` collects its
     character data up to the first end tag with the same qualified name; the last `<f>` wins.
-    Shared formulas (`<f t="shared">`) are property C15's: this model stops with `err "shared formula (C15)"`
-    on them and the C14 generators do not produce them. -/
+    Shared formulas (`<f t="shared" si=".." [ref=".."]>`, property C15): the text of the element is collected like
+    any `<f>`, then the shared branch of `next_formula` runs on it (`finishShared`): `si` is mandatory and numeric, a
+    `ref` makes the cell the master of group `si` (stored in the `formulas` map: text, declared range, position), no
+    `ref` makes it a follower whose text is `replace_cell_names(master, position − master position)` when it lies in
+    the declared range. The map and the rewriting are those of `Model/SharedFormula.lean` (strings there are
+    `List Char`: the element text is UTF-8 decoded as `unescape()` does, the result encoded again).
+    A `t="shared"` attribute on `<v>`/`<is>` (not a formula) is outside the model (`err`). -/
 
 namespace XlsxFormula
 open XlsxCells
@@ -24,19 +31,61 @@ inductive Mode where
   | cell (pos : Nat × Nat) (value : Option Bytes)
   /-- `read_formula`, `b"f"`: collecting text until an end tag with the same qualified name -/
   | inF (pos : Nat × Nat) (name : Bytes) (acc : Bytes)
+  /-- `read_formula`, `b"f"` of an element with `t="shared"`: collecting text; `attrs` are the attributes of the
+      `<f>`, `value` the cell's value so far -/
+  | inShared (pos : Nat × Nat) (value : Option Bytes) (name : Bytes) (attrs : Attrs) (acc : Bytes)
   /-- `read_formula`, `b"is" | b"v"`: `read_to_end_into(name)` -/
   | skip (pos : Nat × Nat) (value : Option Bytes) (name : Bytes) (depth : Nat)
   /-- `next_formula` returned `Ok(None)` -/
   | done
   deriving Repr, DecidableEq
 
-/-- reader state: mode, `row_index`, `col_index`, the cells returned so far (latest first) -/
+/-- reader state: mode, `row_index`, `col_index`, the cells returned so far (latest first), the `formulas` map
+    of shared-formula groups -/
 structure St where
   mode : Mode
   row : Nat
   col : Nat
   out : List (Nat × Nat × Bytes)
+  formulas : SharedFormula.Table
   deriving Repr
+
+def nSiAttr : Bytes := [115, 105]   -- "si"
+#guard nSiAttr == asciiBytes "si"
+
+/-- the shared branch of `next_formula`, run when `</f>` of an `<f t="shared" …>` is reached with the collected
+    text `acc` (already `value = Some(text)`): attribute handling in source order -/
+def finishShared (st : St) (pos : Nat × Nat) (attrs : Attrs) (acc : Bytes) : Res St :=
+  match Utf8.utf8Decode acc with
+  | none => .err "Xml"
+  | some text =>
+    match getAttr attrs nSiAttr with
+    | none => .err "si attribute"
+    | some sb =>
+      match atoiUsize sb with
+      | none => .err "si attribute"
+      | some si =>
+        match getAttr attrs nRef with
+        | some rb =>
+          match getDimension rb with
+          | .ok d =>
+            .ok { st with mode := .cell pos (some acc),
+                          formulas := st.formulas.store si ⟨text, ⟨d.sr, d.sc, d.er, d.ec⟩, pos⟩ }
+          | .err e => .err e
+          | .panic s => .panic s
+          | .outOfFuel => .outOfFuel
+        | none =>
+          match st.formulas.lookup si with
+          | some g =>
+            match g.offsetOf pos with
+            | some off =>
+              match SharedFormula.replaceCellNames g.text off with
+              | .ok v => .ok { st with mode := .cell pos (some (Utf8.utf8Encode v)) }
+              | .err e => .err e
+              | .panic s => .panic s
+              | .outOfFuel => .outOfFuel
+            | none => .ok { st with mode := .cell pos (some acc) }
+          | none => .ok { st with mode := .cell pos (some acc) }
 
 def step (st : St) (ev : Ev) : Res St :=
   match st.mode with
@@ -72,7 +121,9 @@ def step (st : St) (ev : Ev) : Res St :=
     match ev with
     | .start n attrs =>
       if ¬ (localName n = nIs ∨ localName n = nV ∨ localName n = nF) then .err "UnexpectedNode"
-      else if getAttr attrs nT = some tShared then .err "shared formula (C15)"
+      else if getAttr attrs nT = some tShared then
+        (if localName n = nF then .ok { st with mode := .inShared pos value n attrs [] }
+         else .err "shared attribute on a value element")
       else if localName n = nF then .ok { st with mode := .inF pos n [] }
       else .ok { st with mode := .skip pos value n 0 }
     | .stop n =>
@@ -84,6 +135,11 @@ def step (st : St) (ev : Ev) : Res St :=
     match ev with
     | .text s => .ok { st with mode := .inF pos name (acc ++ s) }
     | .stop n => if n = name then .ok { st with mode := .cell pos (some acc) } else .ok st
+    | _ => .ok st
+  | .inShared pos value name attrs acc =>
+    match ev with
+    | .text s => .ok { st with mode := .inShared pos value name attrs (acc ++ s) }
+    | .stop n => if n = name then finishShared st pos attrs acc else .ok st
     | _ => .ok st
   | .skip pos value name depth =>
     match ev with
@@ -111,7 +167,7 @@ def run : List Ev → St → Res (List (Nat × Nat × Bytes))
     | .panic s => .panic s
     | .outOfFuel => .outOfFuel
 
-def initSt : St := ⟨.rows, 0, 0, []⟩
+def initSt : St := ⟨.rows, 0, 0, [], []⟩
 
 /-- `worksheet_formula` before `Range::from_sparse`: the `(row, col, text)` of every `<c>`, in stream order
     (`text = ""` for a cell without `<f>`); `NotAWorksheet` gives no cells -/
